@@ -26,6 +26,7 @@ func checkC04(p *Prog, c *Check) {
 	c04KeysLoop(p, c, accept)
 	c04Store(p, c)
 	c04Gossip(p, c, accept)
+	linearSearchRule(p, c, "C04-R-member", "keyper/database.GetKeyperIndex", "$p1")
 }
 
 // acceptPaths enumerates (return, path-fact-set) pairs compatible with result #0 == accept.
